@@ -302,5 +302,10 @@ Example C15_history_nonvacuous :
   end = true.
 Proof. exact w_history. Qed.
 
+Example C15_threshold_is_binary64_1e_8 :
+  Qle_bool (Qabs (orient_atol - (1 # 100000000))) (1 # 1000000000000000000000000) = true
+  /\ Qden orient_atol = (2 ^ 78)%positive.
+Proof. exact w_atol. Qed.
+
 Example C15_qsqrt_partial_nonvacuous : (qsqrt 2 = None /\ qsqrt (9 # 4) = Some (3 # 2))%Q.
 Proof. exact w_qsqrt_partial. Qed.
